@@ -2,5 +2,5 @@ SPECIFICATION Spec
 CONSTANTS
   KS = 7
   KA = 4
-INVARIANTS Inv_AdamExact Inv_StopsAtOptimum Inv_NesterovMuZero Emit
+INVARIANTS Inv_AdamExact Inv_StopsAtOptimum Inv_NesterovMuZero Inv_ScaleEquivariant Emit
 CHECK_DEADLOCK FALSE
